@@ -104,10 +104,11 @@ Fixpoint vtt_flags_aux (m : fmode) (s : str) (stk : list Z) (out : list (Z * fla
       | FEsc acc =>
           if c =? 59 then
             match vtt_entity (rev acc) with
-            | Some v => vtt_flags_aux FData t stk (emit_chars [v] stk out)
+            | Some v => vtt_flags_aux FData t stk (emit_chars v stk out)
             | None => vtt_flags_aux FData t stk (emit_chars (rev (59 :: acc)) stk out)
             end
-          else if is_alnum c then vtt_flags_aux (FEsc (c :: acc)) t stk out
+          else if is_alnum c || ((c =? 35) && (match acc with [38] => true | _ => false end))
+          then vtt_flags_aux (FEsc (c :: acc)) t stk out
           else if c =? 38 then vtt_flags_aux (FEsc [38]) t stk (emit_chars (rev acc) stk out)
           else if c =? 60 then vtt_flags_aux (FTag []) t stk (emit_chars (rev acc) stk out)
           else vtt_flags_aux FData t stk (emit_chars (rev (c :: acc)) stk out)
